@@ -26,7 +26,9 @@ ALIASES_BY_ID = {
 ALIAS_RULES = [
     ("C02", "C01", r"\.(sum_species|residuals\.row_equations|build_model\.|build_mb_sums|store_mb|mb_sums|trxn_add)"),
     ("C02", "C14", r"\.saver\."),
-    ("C02", "C12", r"\.(calc_final_kinetic_reaction|rk_kinetics\.m_decreases)"),
+    ("C02", "C12", r"\.(calc_final_kinetic_reaction|rk_kinetics\.m_decreases|run_reactions\.reaction_and_mix)"),
+    ("C20", "C10", r"\.keys\.cxxSurface"),
+    ("C03", "C10", r"\.keys\.cxx(PPassemblage|SS)"),
     ("C03", "C02", r"\.(reset\.mineral_transfer|add_pp_assemblage\.amount|add_ss_assemblage\.amount|xpp_assemblage_save|xss_assemblage_save)"),
     ("C03", "C01", r"\.check_residuals\."),
     ("C04", "C12", r"\.(reactions\.step_driver|step_drivers\.)"),
